@@ -2992,6 +2992,19 @@ class Interp:
             finally:
                 self.frame['loops'].pop()
             return ('star', src, eid, inner, conds, True)
+        if recv[0] == 'star' and recv[5] and m in ('any', 'all') and recv[3][0] not in ('tmpl', 'alt', 'opt', 'tuple', 'struct'):
+            # `outer.flat_map(inner).any(p)` is `outer.any(|x| inner(x).any(p))` (likewise `all`): the nested form the rules know
+            _, src, eid, body, conds, _flat = recv
+            if body[0] not in ('star', 'reorder'):
+                ie = self.fresh('e')
+                s2, b2, c2 = self.as_pipeline(body, ie)
+                body = ('star', s2, ie, b2, c2, False)
+            self.frame['loops'].append((eid, src, conds))
+            try:
+                inner = self.iter_method(m, body, args_nodes, env, node)
+            finally:
+                self.frame['loops'].pop()
+            return ('t', (m, ('star', src, eid, ('elem', eid, src), conds, False), self.as_cond(inner)))
         fn = self.expr(args_nodes[0], env)
         if m == 'flat_map' and recv[0] == 'tuple' and len(recv[1]) == 1:
             # `std::iter::once(x).flat_map(f)` / `[x].iter().flat_map(f)` is f(x)
